@@ -338,9 +338,14 @@ class HandlerPaths:
             if isinstance(t, ast.Attribute) and isinstance(t.value, ast.Name) \
                     and t.value.id == 'self':
                 if t.attr == '_indent' and isinstance(st.value, ast.Constant) \
-                        and st.value.value == 1:
-                    return [(ev + [('inc',) if isinstance(st.op, ast.Add)
-                                   else ('dec',)], env, False)]
+                        and isinstance(st.value.value, int) and \
+                        not isinstance(st.value.value, bool) and \
+                        0 <= st.value.value <= 4 and \
+                        isinstance(st.op, (ast.Add, ast.Sub)):
+                    # a step of k is k unit steps (0: none): the balance and
+                    # bracket rules then see a depth that does not return
+                    one = ('inc',) if isinstance(st.op, ast.Add) else ('dec',)
+                    return [(ev + [one] * st.value.value, env, False)]
                 if t.attr == '_indent':
                     raise AnalysisError('indent step is not +-1 in ' +
                                         self.f.qual)
